@@ -413,6 +413,52 @@ pub fn run_c19(tier: &str) -> Report {
     }
     evals += ladder_pairs;
     rep.set("latitude_ladder_ordered_pairs", json!(ladder_pairs));
+    // second-difference sweeps of both conversions over the whole latitude range in equal steps: a jump
+    // of either function (a branch, a band with its own formula) of more than 1e-12 rad shows as its size
+    {
+        let h: f64 = if tier == "quick" { 1e-7 } else { 1e-8 };
+        let nsteps = (rg::PI / h).floor() as u64;
+        let chunk = 1u64 << 18;
+        let starts: Vec<u64> = (0..nsteps).step_by(chunk as usize).collect();
+        let res: Vec<(f64, Option<Viol>)> = starts
+            .par_iter()
+            .map(|&c0| {
+                let c1 = (c0 + chunk).min(nsteps);
+                let mut worst = 0.0f64;
+                for (name, f) in [("forward", fwd as fn(f64) -> f64), ("inverse", inv as fn(f64) -> f64)] {
+                    let mut prev: Option<f64> = None;
+                    let mut prev_d: Option<f64> = None;
+                    for i in c0.saturating_sub(2)..=c1 {
+                        let x = (-half + i as f64 * h).clamp(-half, half);
+                        let y = f(x);
+                        if let Some(p) = prev {
+                            let d = y - p;
+                            if let Some(pd) = prev_d {
+                                let dd = (d - pd).abs();
+                                worst = worst.max(dd);
+                                if !(dd <= 1e-12) {
+                                    return (worst, Some(viol("C19/discontinuity", format!("authalic {} jumps by {:.3e} rad at latitude {} rad (steps of {:.0e})", name, dd, x, h), json!({"kind": "lat", "phi": x, "sweep": name, "h": h}))));
+                                }
+                            }
+                            prev_d = Some(d);
+                        }
+                        prev = Some(y);
+                    }
+                }
+                (worst, None)
+            })
+            .collect();
+        let mut worst_dd = 0.0f64;
+        for (wv, v) in res {
+            worst_dd = worst_dd.max(wv);
+            if let Some(v) = v {
+                rep.sink.push(v);
+                break;
+            }
+        }
+        evals += 2 * nsteps;
+        rep.set("continuity_sweep", json!({"step_rad": h, "steps_per_function": nsteps, "worst_second_difference": worst_dd, "tolerance": 1e-12}));
+    }
     let w = worst.lock().unwrap();
     rep.set("evaluations", json!(evals));
     rep.set("distinct_nontrivial", json!(n + 1));
@@ -453,6 +499,29 @@ pub fn replay_c19(case: &Value) -> Vec<Viol> {
                     }
                 }
                 Err(e) => out.push(viol("C19/panic", e, case.clone())),
+            }
+        }
+        Some("lat") if case["sweep"].is_string() => {
+            let phi = case["phi"].as_f64().unwrap();
+            let h = case["h"].as_f64().unwrap_or(1e-7);
+            let f: fn(f64) -> f64 = if case["sweep"] == "forward" { fwd } else { inv };
+            let half = rg::PI / 2.0;
+            let mut prev: Option<f64> = None;
+            let mut prev_d: Option<f64> = None;
+            for k in -2000i64..=2000 {
+                let x = (phi + k as f64 * h).clamp(-half, half);
+                let y = f(x);
+                if let Some(p) = prev {
+                    let d = y - p;
+                    if let Some(pd) = prev_d {
+                        if !((d - pd).abs() <= 1e-12) && x.abs() < half {
+                            out.push(viol("C19/discontinuity", format!("jump of {:.3e} rad at latitude {}", (d - pd).abs(), x), case.clone()));
+                            break;
+                        }
+                    }
+                    prev_d = Some(d);
+                }
+                prev = Some(y);
             }
         }
         Some("lat") => {
